@@ -24,7 +24,7 @@ SCHED_PATH = ("sched",)
 LEVEL = "exploration"
 QUICK_N = 400
 SCENARIO_TIMEOUT = 180
-PROBES = ["tie_mode", "score_exactly_zero", "quantised_scores", "best_ranked_rows_are_decoys", "another_collection_analysed_before_in_process", "dedup_off", "rollup_off", "decoys_off", "multi_collection", "no_prefix_multi", "empty_string_prefix", "lower_is_better_scores", "failed_attempt_with_same_arguments_first",
+PROBES = ["tie_mode", "score_exactly_zero", "quantised_scores", "best_ranked_rows_are_decoys", "another_collection_analysed_before_in_process", "dedup_off", "rollup_off", "decoys_off", "multi_collection", "no_prefix_multi", "empty_string_prefix", "lower_is_better_scores", "failed_attempt_with_same_arguments_first", "checksum_colliding_peptides",
           "level_cols", "parquet", "spill_files>=2", "group_cut_by_chunk", "merge_chunk_small", "workers>1",
           "switches>0", "listing_permuted", "rollup_tool", "rollup_tool_multi_root", "degenerate_level",
           "conf_chunk_1", "level_batch_flush"]
@@ -110,6 +110,9 @@ def make_scenario(seed):
         "prior": {"table": W.gen_conf_table_params(rng, file_id=7, small=True), "score_seed": rng.getrandbits(32)}
         if rng.random() < 0.2 else None,
     }
+    if rng.random() < 0.3:
+        for t in scn["tables"]:
+            t["hash_twins"] = rng.choice([1, 2, 4])  # distinct peptides whose 32-bit checksums collide
     if not rollup_tool:
         scn["lower_is_better"] = rng.random() < 0.25
         scn["failed_attempt_first"] = rng.random() < 0.25
@@ -346,6 +349,7 @@ def run_scenario(scn, workdir):
         "no_prefix_multi": int(len(tables) > 1 and sum(1 for pf in (conf.get("prefixes") or [None] * len(tables)) if not pf) > 1),
         "empty_string_prefix": int(any(pf == "" for pf in (conf.get("prefixes") or []))),
         "lower_is_better_scores": int(lower),
+        "checksum_colliding_peptides": int(any(t.get("hash_twins") for t in scn["tables"])),
         "failed_attempt_with_same_arguments_first": int(bool(res.first_attempt and res.first_attempt.startswith("failed"))),
         "level_cols": int(bool(level_cols)),
         "parquet": int(scn["format"] == "parquet"),
